@@ -100,7 +100,8 @@ JudgeFlags(o) ==
     IN  IF acc.junk THEN << Flag("a positional word, or arguments after it, were silently ignored") >>
         ELSE IF del + wat + sys # 1 THEN << Flag("a line mixing (or lacking) delete, watch and syscall-rule flags was accepted") >>
         ELSE IF sys = 1 /\ ((acc.na > 0) = (acc.nA > 0)) THEN << Flag("a syscall rule with both or neither of -a/-A was accepted") >>
-        ELSE IF acc.na > 1 \/ acc.nA > 1 \/ acc.nW > 1 THEN << >>     \* repeated single-valued flags: not judged
+        ELSE IF acc.na > 1 \/ acc.nA > 1 \/ acc.nW > 1
+             THEN << Flag("a repeated -w/-a/-A was accepted although a rule can reflect only one of them") >>
         ELSE
           (IF r.keys # acc.K THEN << Flag("the -k arguments are not reflected in full") >> ELSE << >>)
           \o (IF del = 1 THEN (IF r.type # "delete" THEN << Flag("-D did not produce a delete rule") >> ELSE << >>)
